@@ -12,6 +12,7 @@ import (
 	"image"
 	"image/gif"
 	"image/jpeg"
+	"os/exec"
 
 	"verif/internal/pngmk"
 )
@@ -56,6 +57,31 @@ func Families(tier string) map[string][]Seed {
 					fam = "png-width-filter" // decoded into BGRA_NONPREMUL only
 				}
 				add("png", fam, im.Name, im.Data, false, &im)
+			}
+		}
+	}
+
+	// ---- xz: filter parameters. The Delta filter keeps a 256-byte ring per filter slot in the
+	// part of the object that LEAVE_INTERNAL_BUFFERS_UNINITIALIZED does not clear; distances at the
+	// ends of its range (1, 2, 255, 256), alone and after another block (seeded change C09-4).
+	if _, err := exec.LookPath("xz"); err == nil {
+		payload := make([]byte, 1280)
+		for i := range payload {
+			payload[i] = byte(i*7+i/5) | 1
+		}
+		for _, d := range []int{256, 255, 1, 2, 4, 16} {
+			for _, bs := range []string{"", "--block-size=320"} {
+				args := []string{"--format=xz", "-T1", "-c", fmt.Sprintf("--delta=dist=%d", d), "--lzma2=preset=0"}
+				name := fmt.Sprintf("delta%d", d)
+				if bs != "" {
+					args = append(args, bs)
+					name += "-4blocks"
+				}
+				cmd := exec.Command("xz", args...)
+				cmd.Stdin = bytes.NewReader(payload)
+				if b, err := cmd.Output(); err == nil && len(b) > 0 {
+					add("xz", "xz-filter-params", name, b, true, nil)
+				}
 			}
 		}
 	}
